@@ -616,6 +616,105 @@ def replay_fault(ctx, replay_path):
     return not ok
 
 
+def run_contract(ctx, runs, steps):
+    """C20: every call redb makes on a monitored backend, judged by BackendTrace.tla"""
+    trace = os.path.join(ctx.work, "contract.ndjson")
+    p = sh([bin_path("contract"), "--seed", str(ctx.seed), "--runs", str(runs), "--steps", str(steps), "--out", trace], timeout=3600)
+    stats = json.loads(p.stdout.strip().splitlines()[-1])
+    log(f"contract: {stats['scenarios']} scenarios ({stats['failing_opens']} failing opens), {stats['backend_calls']} backend calls")
+    ok, info = tlc_trace_generic(ctx, "BackendTrace", trace)
+    ctx.cov["evaluations"] += stats["backend_calls"]
+    ctx.cov["distinct_nontrivial"] += stats["scenarios"]
+    ctx.notes["contract"] = stats
+    if not ok:
+        rec = info["record"]
+        lines = open(trace).read().splitlines()[: info["line"]]
+        start = max(i for i, l in enumerate(lines) if json.loads(l)["e"] == "bopen")
+        what = f"backend contract: BackendTrace rejects call {json.dumps(rec)} in scenario {rec.get('sc')} (call {info['line'] - start} since the backend was handed to redb)"
+        sig = f"contract:{rec.get('sc')}:{rec.get('e')}"
+        payload = {"property": ctx.prop, "kind": "contract", "scenario": rec.get("sc"), "seed": ctx.seed, "runs": runs, "steps": steps,
+                   "calls": [json.loads(l) for l in lines[start:]][-200:], "what": what, "signature": sig}
+        raise Violation(ctx.prop, save_replay(ctx.prop, payload), what, sig)
+    ctx.cov["traces_validated_against_impl"] += stats["scenarios"]
+    ctx.add_samples([json.loads(l) for l in open(trace).read().splitlines()[5:7]])
+    return stats
+
+
+def run_contract_race(ctx):
+    """The forced close race: a known finding unless the trace is accepted"""
+    trace = os.path.join(ctx.work, "contract-race.ndjson")
+    sh([bin_path("contract"), "--race", "--seed", str(ctx.seed), "--out", trace], timeout=600)
+    note = [json.loads(l) for l in open(trace) if '"note"' in l]
+    if not note or not note[0].get("reached"):
+        raise ToolError("close-race schedule did not reach its pause point")
+    ok, info = tlc_trace_generic(ctx, "BackendTrace", trace)
+    ctx.cov["evaluations"] += 1
+    ctx.notes["close_race"] = {"accepted": ok, "reader_result": note[0].get("reader_result")}
+    if ok:
+        return
+    rec = info["record"]
+    sig = "C20/backend-call-after-close-race"
+    listed = {k["property"] + "/" + k["signature"]: k for k in load_known() if k["kind"] == "known"}
+    if rec.get("sc") == "close-race" and rec.get("e") in ("read", "len") and sig in listed:
+        k = listed[sig]
+        ctx.known_hits.append(f"property={k['property']} {k['what']}")
+        return
+    what = f"close race: BackendTrace rejects {json.dumps(rec)}"
+    payload = {"property": ctx.prop, "kind": "contract-race", "what": what, "signature": sig}
+    raise Violation(ctx.prop, save_replay(ctx.prop, payload), what, sig)
+
+
+def run_readonly_strace(ctx):
+    """A read-only database on a real file, under strace: its system calls on the file become
+    backend events of a read-only backend"""
+    path = os.path.join(ctx.work, "ro.redb")
+    sh([bin_path("ro_session"), "create", path], timeout=120)
+    size = os.path.getsize(path)
+    st = os.path.join(ctx.work, "ro.strace")
+    sh(["strace", "-f", "-o", st, "-e", "trace=openat,pwrite64,write,ftruncate,fsync,fdatasync,close,pread64", bin_path("ro_session"), "read", path], timeout=120)
+    fd = None
+    evs = []
+    for l in open(st):
+        m = re.search(r'openat\(.*"%s".*\) = (\d+)' % re.escape(path), l)
+        if m:
+            fd = m.group(1)
+            evs.append({"e": "bopen", "len": size, "ro": True, "sc": "read-only-file"})
+            continue
+        if fd is None:
+            continue
+        m = re.search(r"(pread64|pwrite64|write|ftruncate|fsync|fdatasync|close)\((\d+)(.*)\) = (-?\d+)", l)
+        if not m or m.group(2) != fd:
+            continue
+        call, rest = m.group(1), m.group(3)
+        nums = [int(x) for x in re.findall(r", (\d+)", rest)]
+        if call == "pread64":
+            evs.append({"e": "read", "a": nums[-1], "b": nums[-2], "sc": "read-only-file"})
+        elif call in ("pwrite64", "write"):
+            evs.append({"e": "write", "a": nums[-1] if call == "pwrite64" else 0, "b": nums[0] if nums else 0, "sc": "read-only-file"})
+        elif call == "ftruncate":
+            evs.append({"e": "set_len", "a": nums[0], "b": 0, "sc": "read-only-file"})
+        elif call in ("fsync", "fdatasync"):
+            evs.append({"e": "sync", "a": 0, "b": 0, "sc": "read-only-file"})
+        elif call == "close":
+            evs.append({"e": "close", "a": 0, "b": 0, "sc": "read-only-file"})
+            evs.append({"e": "bdone", "a": 0, "b": 0, "sc": "read-only-file"})
+            fd = None
+    if not any(e["e"] == "read" for e in evs):
+        raise ToolError("strace saw no read of the database file")
+    trace = os.path.join(ctx.work, "ro.ndjson")
+    with open(trace, "w") as f:
+        for e in evs:
+            f.write(json.dumps(e) + "\n")
+    ok, info = tlc_trace_generic(ctx, "BackendTrace", trace)
+    ctx.cov["evaluations"] += len(evs)
+    ctx.notes["read_only_syscalls"] = len(evs)
+    if not ok:
+        what = f"read-only database issued {json.dumps(info['record'])} on its file"
+        payload = {"property": ctx.prop, "kind": "contract-ro", "what": what, "signature": "contract:ro"}
+        raise Violation(ctx.prop, save_replay(ctx.prop, payload), what, "contract:ro")
+    ctx.cov["traces_validated_against_impl"] += 1
+
+
 def gen_tour(ctx, module, cfg, out_name, workers=4, timeout=900):
     """Have TLC print every transition of a tour model"""
     out_path = os.path.join(ctx.work, out_name)
@@ -886,8 +985,29 @@ def check_C08(ctx):
                      "distinct_nontrivial = faulty runs (distinct (history, k, mode)).")
 
 
+def check_C20(ctx):
+    build()
+    tlc_check(ctx, "Close", "MC_Close.cfg", workers=2, timeout=300)
+    tlc_expect_violation(ctx, "Close", "MC_Close_bad.cfg", "ClosedWhenDone", workers=2)
+    run_contract(ctx, tiered(ctx, 6, 60), tiered(ctx, 300, 1000))
+    run_readonly_strace(ctx)
+    run_contract_race(ctx)
+    ctx.assumptions += ["the read-only database is observed through strace on a real file (redb offers no read-only open on a custom backend)",
+                        "calls that were already in flight when close() begins are not distinguished from calls that begin after it returned: the "
+                        "monitor is sequentially consistent (one mutex)"]
+    return dict(level="model_checking", exhaustive=False,
+                rule="design: Backend.tla (reads/writes within the length, nothing after close, exactly one close, read-only sees no mutation) and "
+                     "Close.tla (Database::drop vs end of the live write transaction, all interleavings: exactly one side closes; the non-atomic hand-off variant is caught). code: every "
+                     "backend call of random histories with reopen/compaction, of failing opens (bad magic, wrong page size, truncation at several "
+                     "lengths, torn geometry, both slots corrupt, aborted repair, an I/O error at EVERY call of a repairing open, permanent and "
+                     "once), of a Database dropped while a write transaction is live (commit/abort/drop afterwards, readers outliving it) is "
+                     "validated by TLC against Backend.tla; system calls of a read-only file database (strace) likewise; a reader forced between "
+                     "the closed-check and the backend call while the Database is dropped (pause point) - a known finding. non-trivial = scenarios")
+
+
 PROPS = {
     "C01": check_C01,
+    "C20": check_C20,
     "C08": check_C08,
     "C14": check_C14,
     "C02": check_C02,
@@ -932,6 +1052,12 @@ def main(argv):
                 still = replay_crash_case(ctx, replay)
             elif payload.get("kind") == "sched":
                 still = replay_sched(ctx, payload)
+            elif payload.get("kind", "").startswith("contract"):
+                try:
+                    PROPS[prop](ctx)
+                    still = False
+                except Violation:
+                    still = True
             elif payload.get("kind") == "fault":
                 still = replay_fault(ctx, replay)
             elif payload.get("kind") == "buddy":
